@@ -74,6 +74,7 @@ type Slot struct {
 	goid     uint64
 	Kind     int
 	Key      uintptr
+	Home     uintptr // workers: the scheduler they belong to (Key follows the scheduler whose hooks the goroutine passed last, which differs while a worker runs a nested directive)
 	parked   bool
 	granted  bool
 	Site     int
@@ -103,6 +104,7 @@ type schedState struct {
 	waitClosed bool // Wait closed enqueuec
 	loopSlot   int
 	creator    int // slot of the goroutine that called Config.New
+	creatorTag int // that goroutine's tag at the time
 	// probes written by this scheduler's loop only
 	dispatched, maxOngoing, ticks, ticksWhileReady, drained, doneFullBlocked int
 	conc                                                                     int
@@ -287,6 +289,7 @@ func (s *Sim) hookYield(site int, key uintptr) {
 		switch site {
 		case scheduler.VerifWStart:
 			sl.Kind = KWorker
+			sl.Home = key
 		case scheduler.VerifLStart:
 			sl.Kind = KLoop
 		case scheduler.VerifSpStart:
@@ -304,6 +307,7 @@ func (s *Sim) hookYield(site int, key uintptr) {
 		for i := 0; i < s.nslots; i++ {
 			if &s.slots[i] == sl {
 				st.creator = i
+				st.creatorTag = sl.Tag
 			}
 		}
 	}
@@ -338,7 +342,7 @@ func (s *Sim) idleWorkers(key uintptr) int {
 	n := 0
 	for i := 0; i < s.nslots; i++ {
 		o := &s.slots[i]
-		if o.Kind == KWorker && o.Key == key && !o.parked && !o.Exited &&
+		if o.Kind == KWorker && o.Home == key && !o.parked && !o.Exited &&
 			(o.LastSite == scheduler.VerifWStart || o.LastSite == scheduler.VerifWNext) {
 			n++
 		}
@@ -352,7 +356,16 @@ func (s *Sim) idleWorkers(key uintptr) int {
 func (s *Sim) liveOf(key uintptr) (workers, others int) {
 	for i := 0; i < s.nslots; i++ {
 		o := &s.slots[i]
-		if o.Key != key || o.Exited {
+		if o.Exited {
+			continue
+		}
+		if o.Kind == KWorker {
+			if o.Home == key {
+				workers++
+			}
+			continue
+		}
+		if o.Key != key {
 			continue
 		}
 		switch o.Kind {
@@ -601,6 +614,17 @@ func (c *Chooser) Rng() *rand.Rand { return c.rng }
 func (s *Sim) markExited() {
 	sl := s.lookup()
 	sl.Exited = true
+}
+
+// SwapTag sets the calling goroutine's tag (which execution it is currently
+// the caller of) and returns the previous one.
+//
+//go:norace
+func (s *Sim) SwapTag(tag int) int {
+	sl := s.lookup()
+	old := sl.Tag
+	sl.Tag = tag
+	return old
 }
 
 //go:norace
@@ -1035,7 +1059,7 @@ func (s *Sim) CallerTagOfSched(i int) int {
 	if i >= s.nsched {
 		return -1
 	}
-	return s.slots[s.sched[i].creator].Tag
+	return s.sched[i].creatorTag
 }
 
 // DyingOfSched counts workers of scheduler i that are inside their death
@@ -1046,7 +1070,7 @@ func (s *Sim) DyingOfSched(i int) int {
 	n := 0
 	for k := 0; k < s.nslots; k++ {
 		o := &s.slots[k]
-		if o.Kind == KWorker && o.Key == s.sched[i].key && !o.Exited {
+		if o.Kind == KWorker && o.Home == s.sched[i].key && !o.Exited {
 			site := o.LastSite
 			if o.parked {
 				site = o.Site
@@ -1099,6 +1123,12 @@ func (s *Sim) CreatedOfSched(i int) int {
 	n := 0
 	for k := 0; k < s.nslots; k++ {
 		o := &s.slots[k]
+		if o.Kind == KWorker {
+			if o.Home == s.sched[i].key {
+				n++
+			}
+			continue
+		}
 		if o.Key == s.sched[i].key && o.Kind != KCaller && o.Kind != KUnknown {
 			n++
 		}
